@@ -65,6 +65,7 @@ fn forget(p: usize) {
 /// intact and need not crash) is counted here and reported by the run (C01: per input; every property: per run)
 const GUARD: usize = 64;
 const GUARD_BYTE: u8 = 0xA7;
+const FREED_BYTE: u8 = 0xDD;
 pub static OVERRUNS: std::sync::atomic::AtomicUsize = std::sync::atomic::AtomicUsize::new(0);
 /// size of the first overrun block and how many guard bytes were changed (both + 1; 0 = none yet)
 static OVERRUN_SIZE: std::sync::atomic::AtomicUsize = std::sync::atomic::AtomicUsize::new(0);
@@ -121,6 +122,8 @@ unsafe impl GlobalAlloc for Counting {
             forget(p as usize);
         }
         guard_check(p, l.size());
+        // a freed block is overwritten: whatever still points into it reads this pattern, not the old contents
+        std::ptr::write_bytes(p, FREED_BYTE, l.size());
         System.dealloc(p, guarded_layout(l))
     }
     unsafe fn realloc(&self, p: *mut u8, l: Layout, n: usize) -> *mut u8 {
